@@ -372,9 +372,19 @@ BATTERY = [
      'local B = require("y")\nlocal a = require("x")\nlocal a = require("z")\n'),
 ]
 TRIVIA = ("comment-on-moved-member", R("b") + "--[[c]] " + R("a"), ["--sort-requires"], "--[[c]]")
+def _big_group(n):
+    names = [f"m{(i * 7) % 9:02d}" for i in range(n)]
+    lines = [f'local {nm} = require("p{i:02d}")\n' for i, nm in enumerate(names)]
+    want = [ln for _, _, ln in sorted(((nm, i, ln) for i, (nm, ln) in enumerate(zip(names, lines))), key=lambda t: (t[0], t[1]))]
+    return "".join(lines), "".join(want)
+
+
+for _n in (21, 24, 33, 64):       # (std's unstable sort is an insertion sort - stable - up to 20 elements)
+    _src, _want = _big_group(_n)
+    BATTERY.append((f"stable-duplicates-{_n}-members", _src, ["--sort-requires"], _want))
 KIND2SCEN = {"members-count": ["multi-name-local", "multi-value-local"], "region": ["ignore-region", "ignore-region-opened-earlier", "ignore-region-closed-before", "ignore-region-opened-at-a-member", "ignore-region-closed-at-a-member"], "grouping": ["blank-line-splits", "statement-splits", "kinds-do-not-merge", "wrapped-require", "sorted", "blank-line-with-spaces", "blank-line-crlf"],
-             "members": ["semicolon-comments", "sorted", "stable-duplicates"],
-             "guard": ["ignored-member", "ignored-second-member", "ignored-last-member", "out-of-range-group", "partly-in-range-group"], "sort": ["sorted", "stable-duplicates", "blank-line-splits"],
+             "members": ["semicolon-comments", "sorted", "stable-duplicates"] + [f"stable-duplicates-{n}-members" for n in (21, 24, 33, 64)],
+             "guard": ["ignored-member", "ignored-second-member", "ignored-last-member", "out-of-range-group", "partly-in-range-group"], "sort": ["sorted", "stable-duplicates", "blank-line-splits"] + [f"stable-duplicates-{n}-members" for n in (21, 24, 33, 64)],
              "enabled": ["off", "sorted"]}
 
 
